@@ -21,8 +21,9 @@ Compile-only part: two threads each call env.compile(text) on one shared environ
 has (or has not) compiled the text before; these bodies are short enough (119-458 scheduling
 points each) for ALL schedules with <= 2 preemptions, split into 16 slices by the smallest
 preemption of a schedule (quick: the same-text / already-compiled harness; thorough: all four).
-Oracle: both threads get a query that prints and evaluates like the sequential one.  Thorough
-repeats the compile-only harnesses with a scheduling point before every BYTECODE instruction of
+Oracle: both threads get a query that prints and evaluates like the sequential one.  Quick also
+runs the first two compile-only harnesses at bytecode granularity with <= 1 preemption; thorough
+repeats all compile-only harnesses with a scheduling point before every BYTECODE instruction of
 package code (frame.f_trace_opcodes), so that a preemption can also fall between the load and the
 store of an in-place update: <= 2 preemptions for the first harness, <= 1 for the others.
 """
@@ -79,7 +80,8 @@ def BOUNDS(tier):
             "thread_executions_cap_per_harness": None if tier == "quick" else 6000,
             "compile_only_harnesses": [w[0] for w in (W_HARNESS[:1] if tier == "quick" else W_HARNESS)],
             "compile_only_preemption_bound": 2, "compile_only_cap": None,
-            "compile_only_bytecode_granularity": None if tier == "quick" else "bound 2 for the first harness, bound 1 for the others"}
+            "compile_only_bytecode_granularity": "bound 1 for the first two harnesses" if tier == "quick"
+            else "bound 2 for the first harness, bound 1 for the others"}
 
 
 def _twin(x):
@@ -114,8 +116,39 @@ def make_iters(config, qi):
 
     sol = []
     for f in build():
-        sol.append([(n.location, id(n.value)) for n in f()])
+        sol.append(_solitary(f))
     return build, sol
+
+
+def _solitary(f):
+    """items of a solitary run; an exception ends the run and is recorded as its last item"""
+    out = []
+    it = iter(f())
+    while True:
+        try:
+            n = next(it)
+        except StopIteration:
+            break
+        except Exception as e:  # noqa: BLE001
+            out.append("raised " + type(e).__name__)
+            break
+        out.append((n.location, id(n.value)))
+    return out
+
+
+def _big_doc():
+    """nested deeper than the interpreter's recursion limit of this process (3000, see mc/run.py):
+    on an environment whose max_recursion_depth is larger still, a descendant query yields two
+    shallow nodes and then fails (or completes) - in the same way solitary and interleaved"""
+    if "d" not in _BIG:
+        cur = [{"a": 2}]
+        for _ in range(3300):
+            cur = [cur]
+        _BIG["d"] = [{"a": 0}, [{"a": 1}, cur]]
+    return _BIG["d"]
+
+
+_BIG = {}
 
 
 def _build_iters(config, qi):
@@ -123,6 +156,14 @@ def _build_iters(config, qi):
     text, doc = QUERIES[qi]
     other_text, other_doc = QUERIES[(qi + 1) % N_ITER_QUERIES]
     e1, e2 = JPE(), JPE()
+    if config == "big-limit-env":
+        class Big(JPE):
+            max_recursion_depth = 20000
+
+        eb = Big()
+        qb, qb2 = eb.compile("$..a"), eb.compile("$..a")
+        bd = _big_doc()
+        return [lambda: qb.finditer(bd), lambda: qb2.finditer(bd)]
     q1 = e1.compile(text)
     if config == "same-query-same-doc":
         facs = [lambda: q1.finditer(doc), lambda: q1.finditer(doc)]
@@ -383,9 +424,14 @@ def shards(tier):
     out = [{"part": "abandon", "q": qi, "tier": tier} for qi in range(len(ABANDON))]
     out += [{"part": "iters", "q": qi, "config": c, "cap": {"2": 5, "3": 3} if tier == "quick" else {"2": 7, "3": 4}}
            for qi in range(N_ITER_QUERIES) for c in CONFIGS]
+    out += [{"part": "iters", "q": 0, "config": "big-limit-env", "cap": {"2": 3, "3": 3}}]
     out += [{"part": "threads", "h": h, "tier": tier} for h in range(len(T_HARNESS))]
     ws = [0] if tier == "quick" else range(len(W_HARNESS))
     out += [{"part": "warm", "w": w, "slice": i, "tier": tier} for w in ws for i in range(W_SLICES)]
+    if tier == "quick":
+        # quick: the first two compile-only harnesses at bytecode granularity, <= 1 preemption
+        out += [{"part": "warm", "w": w, "slice": i, "tier": tier, "opcodes": True, "bound": 1}
+                for w in (0, 1) for i in range(W_SLICES)]
     if tier == "thorough":
         # the same compile-only harnesses at bytecode granularity (a scheduling point before every
         # instruction of package code): all schedules with <= 1 preemption, <= 2 for the first harness
@@ -478,7 +524,7 @@ def run_shard(desc):
                                        {"part": "iters", "q": desc["q"], "config": desc["config"],
                                         "schedule": list(sched)},
                                        "items of the solitary run", bad, "interference"))
-            if k == 2:
+            if k == 2 and desc["config"] != "big-limit-env":
                 for p in range(len(head) + 1):
                     for ci in range(k):
                         for mode in ("close", "drop"):
